@@ -81,6 +81,8 @@ def std_mcall(ev, recv, name, args, e):
                 raise Unsupported("queue length compared with %r" % (b,))
             return {"==": empty, ">": not empty, "!=": not empty, "<=": empty, ">=": True}[op]
         return ("sym", cmp)
+    if last == "is_empty" and base is not None and base.endswith(".queue"):
+        return ev.env["__empty"]
     if last == "is_running":
         b = path_str(e[1])
         v = ev.env.get(b)
@@ -174,6 +176,10 @@ def find_match_on(ast, pred):
             s = n[1]
             ps = path_str(s)
             if ps is not None and pred(ps):
+                # `if matches!(state, ..) { .. }`: the decision is the whole `if`, not the boolean test inside it
+                for m in walk(ast):
+                    if isinstance(m, tuple) and m and m[0] == "if" and m[1] is n:
+                        return m
                 return n
     raise Unsupported("match not found")
 
@@ -512,6 +518,8 @@ class Extractor:
         for n in walk(body):
             if isinstance(n, tuple) and n and n[0] == "if" and n[1][0] == "bin" and n[1][1] == "==" and n[1][2][0] == "mcall" and n[1][2][2] == "len":
                 exit_if = n
+            elif isinstance(n, tuple) and n and n[0] == "if" and n[1][0] == "mcall" and n[1][2] == "is_empty" and (path_str(n[1][1]) or "").endswith(".queue"):
+                exit_if = n
         if exit_if is None:
             raise Unsupported("drain: exit test not found")
         # the flag that ends the drain loop: `while !FLAG`, whatever the local is called
@@ -735,6 +743,38 @@ class Extractor:
         uses = [n for n in ("sync", "sync_no_panic", "desync", "try_sync") if n in dn]
         if "from_raw" not in dn:
             raise Unsupported("Desync::drop no longer frees the boxed value")
+        # every `Box::from_raw` of the drop must sit inside the closure handed to one of those scheduling calls
+        stack, outside, total = [], 0, 0
+        for k in range(o, c):
+            if names[k] == "(":
+                stack.append(names[k - 1])
+            elif names[k] == ")":
+                if stack:
+                    stack.pop()
+            elif names[k] == "from_raw":
+                total += 1
+                if not any(x in ("sync", "sync_no_panic") for x in stack):
+                    outside += 1
+        self.out.append("/-- `Desync::drop`: how many times the boxed value is released (`Box::from_raw`) outside the closure of a scheduled job -/")
+        self.out.append("def dropFreesOutsideJob : Nat := %d\n" % outside)
+        self.digest["facts"]["dropFreesOutsideJob"] = outside
+        self.digest["facts"]["dropFreesTotal"] = total
+        # inventory of `unsafe` (blocks, fns, impls) per source file: the sites the protocol theorems of C14 are about
+        inv = []
+        for root, _dirs, files in os.walk(self.src.dir):
+            for fn in sorted(files):
+                if not fn.endswith(".rs"):
+                    continue
+                rel = os.path.relpath(os.path.join(root, fn), self.src.dir)
+                if rel.startswith("verif") or "/verif" in rel:
+                    continue
+                n = sum(1 for t in self.src.load(rel) if t[1] == "unsafe")
+                if n:
+                    inv.append((rel, n))
+        inv.sort()
+        self.out.append("/-- every source file that contains `unsafe` (block, fn or impl), with the number of occurrences -/")
+        self.out.append("def unsafeSites : List (String × Nat) := [%s]\n" % ", ".join('("%s", %d)' % x for x in inv))
+        self.digest["facts"]["unsafeSites"] = inv
         self.out.append("/-- scheduling functions used by `Desync::drop` to free the value -/")
         self.out.append("def dropUses : List String := [%s]\n" % ", ".join('"%s"' % u for u in uses))
         self.digest["facts"]["dropUses"] = uses
